@@ -28,7 +28,7 @@ REQUIRED = ["oracle.scale.cell", "oracle.scale.untouched-column", "oracle.scale.
             "oracle.other-fields", "oracle.xrep.dense-sparse", "oracle.xrep.dense-scalar",
             "oracle.envs.scale", "oracle.envs.impute", "oracle.envs.impute.list",
             "reach.none-first-row", "reach.nan-in-window", "reach.sparse-key-absent-from-first-row",
-            "reach.using-shorter", "reach.using-longer", "reach.using-1"]
+            "reach.using-shorter", "reach.using-longer", "reach.using-1", "oracle.shared-filter-object"]
 ASSUMPTIONS = [
     "degenerate denominators (exact value < 1e-5; the code switches at 1e-6): only 'no exception, finite numbers, "
     "missing cells stay missing, non-numeric untouched, representations agree' is asserted",
@@ -204,6 +204,7 @@ def gen_case(rng):
     spec["ikind"] = rng.choice(["sim", "log"])
     spec["extra"] = rng.random() < .3
     spec["via"] = "envs" if rng.random() < .35 else "filter"
+    spec["warm"] = rng.random() < .3
     if spec["via"] == "envs" and filt == "scale":
         spec["targets"] = rng.choice(["context", ["context"]])
     return spec
@@ -254,27 +255,41 @@ def _make_env_class():
     return _ListEnv
 _ENVCLS = None
 
-def _apply(spec, interactions):
-    """runs the real code; returns the list of output interactions"""
+def _apply(spec, interactions, decoy=None):
+    """runs the real code; returns the list of output interactions.  With a decoy (another sequence of the same layout
+    but other values) the SAME filter object / Environments call first handles the decoy: the statistics applied to
+    `interactions` must still be those of its own fitting window."""
     from coba.environments.filters import Scale, Impute
     global _ENVCLS
     if spec["via"] == "filter":
         if spec["filter"] == "scale":
-            return list(Scale(spec["shift"], spec["scale"], "context", spec["using"]).filter(interactions))
+            f = Scale(spec["shift"], spec["scale"], "context", spec["using"])
+            if decoy is not None:
+                try: list(f.filter(decoy))
+                except Exception: pass
+            return list(f.filter(interactions))
         stats = spec["stats"] if isinstance(spec["stats"], list) else [spec["stats"]]
-        items = interactions
+        items, ditems = interactions, decoy
         for st in stats:                                   # the documented meaning of a list: applied in order
-            items = list(Impute(st, spec["indicator"], spec["using"]).filter(items))
+            f = Impute(st, spec["indicator"], spec["using"])
+            if ditems is not None:
+                try: ditems = list(f.filter(ditems))
+                except Exception: ditems = None
+            items = list(f.filter(items))
         return items
     from coba.environments import Environments
     if _ENVCLS is None: _ENVCLS = _make_env_class()
-    envs = Environments(_ENVCLS(interactions))
+    envs = Environments(_ENVCLS(interactions)) if decoy is None else Environments(_ENVCLS(decoy), _ENVCLS(interactions))
     if spec["filter"] == "scale":
         envs = envs.scale(spec["shift"], spec["scale"], spec["targets"], spec["using"])
     else:
         envs = envs.impute(spec["stats"], spec["indicator"], spec["using"])
-    if len(envs) != 1: raise _Oracle("envs-count", f"{len(envs)} environments after one scale/impute call on one environment")
-    return list(envs[0].read())
+    want = 1 if decoy is None else 2
+    if len(envs) != want: raise _Oracle("envs-count", f"{len(envs)} environments after one scale/impute call on {want} environment(s)")
+    if decoy is not None:
+        try: list(envs[0].read())
+        except Exception: pass
+    return list(envs[-1].read())
 
 class _Oracle(Exception):
     def __init__(self, mode, what): self.mode, self.what = mode, what
@@ -349,8 +364,14 @@ def _run_rep(spec, rep, ctx=None):
     inputs = _interactions(spec, contexts)
     viol = []
     expect_raise = rep == "sparse" and spec["filter"] == "scale" and spec["shift"] != 0
+    decoy = None
+    if spec.get("warm"):
+        # the same filter object (or one Environments.scale/impute call over two environments) handles another sequence first
+        t2 = [[(c * 3 + 7 if _is_num(c) and not _is_nan(c) else c) for c in r] for r in table]
+        decoy = _interactions(spec, _contexts(dict(spec, scalar_col=0) if rep == "scalar" else spec, rep, t2))
+        note("oracle.shared-filter-object")
     try:
-        outs = _apply(spec, inputs)
+        outs = _apply(spec, inputs, decoy)
     except _Oracle as e:
         return [(e.mode, e.what, None)], None
     except Exception as e:
